@@ -25,6 +25,10 @@ int main(int argc, char **argv) {
       case 4: out = a.shiftLeft(2, 7); break;
       case 5: out = a.shiftRight(1, -3); break;
       case 6: out = a.clamp(-1, 9); break;
+      case 7: { int r = a.findIndex(OCCA_FUNCTION([](const int &v) -> bool { return v >= 5; })); printf("OUT %d\n", r); return 0; }
+      case 8: { int r = a.reduce<int>(occa::reductionType::sum, OCCA_FUNCTION([](const int &acc, const int &v) -> int { return acc + v; })); printf("OUT %d\n", r); return 0; }
+      case 9: { int r = a.max(); printf("OUT %d\n", r); return 0; }
+      case 10: { int r = a.min(); printf("OUT %d\n", r); return 0; }
       default: return 2;
     }
     out.memory().copyTo(o);
